@@ -420,9 +420,21 @@ func (el *EventList) compress() *compressedEventList {
 	return &c
 }
 
+// validate refuses a decoded list with a missing value: uncompress computes hashes from the values
+func (c *compressedEventList) validate() error {
+	for _, e := range c.E {
+		if e == nil {
+			return errors.New("event list contains an empty value")
+		}
+	}
+	return nil
+}
+
 func (el *EventList) uncompress(c *compressedEventList) {
 	if len(c.E) != 0 {
 		el.Events = make([]*Event, len(c.E))
+	} else {
+		el.Events = nil
 	}
 	if el.ComputeProduct {
 		el.product = big.NewInt(1)
@@ -457,6 +469,9 @@ func (el *EventList) UnmarshalJSON(bts []byte) error {
 	if err != nil {
 		return err
 	}
+	if err = c.validate(); err != nil {
+		return err
+	}
 	el.uncompress(&c)
 	return nil
 }
@@ -469,6 +484,9 @@ func (el *EventList) UnmarshalCBOR(bts []byte) error {
 	var c compressedEventList
 	err := cbor.Unmarshal(bts, &c)
 	if err != nil {
+		return err
+	}
+	if err = c.validate(); err != nil {
 		return err
 	}
 	el.uncompress(&c)
